@@ -191,7 +191,8 @@ def _seg_pair(rng, labels, t0_choices=(0.0,)):
     T = rng.choice([10.0, 20.0, 30.5, 12.345, 7.25])
     t0 = rng.choice(t0_choices)
     ref = _partition(rng, t0, t0 + T, rng.randrange(1, 9))
-    mode = rng.choice(["same", "same", "longer", "shorter", "longer_coincide", "earlier", "earlier_coincide", "later", "empty"])
+    mode = rng.choice(["same", "same", "longer", "shorter", "longer_coincide", "earlier", "earlier_coincide", "later", "empty",
+                       "near_end", "near_start"])
     e0, e1 = t0, t0 + T
     must = None
     if mode == "longer":
@@ -208,6 +209,11 @@ def _seg_pair(rng, labels, t0_choices=(0.0,)):
         must = t0  # an estimated boundary exactly at the reference start
     elif mode == "later":
         e0 = t0 + rng.choice([0.25, 1.0])
+    elif mode == "near_end":
+        # the estimate ends a hair before / after the reference end (not equal): still a span to crop or pad
+        e1 = t0 + T + rng.choice([-2e-5, 2e-5, -3e-7, 4e-9, 1e-6]) * rng.choice([1.0, T])
+    elif mode == "near_start":
+        e0 = t0 + rng.choice([4e-9, 2e-6, 3e-5])
     est = [] if mode == "empty" else _partition(rng, e0, e1, rng.randrange(1, 9), must)
     lr = [rng.choice(labels) for _ in ref]
     le = [rng.choice(labels) for _ in est]
@@ -591,7 +597,13 @@ def a_melody(me, d):
         c.verdict, c.why = UNSPEC, "time beyond the harness horizon"
         return c
     c.verdict = VALID
-    c.must_return = [("melody.evaluate", lambda: ml.evaluate(rt, rf, et, ef))]
+    # the optional voicing / reward arrays, derived from the loaded series the way the docstring describes them
+    ev_arr = (ef > 0).astype(float)
+    rr_arr = np.where(rf > 0, 1.0, 0.5)
+    c.must_return = [("melody.evaluate", lambda: ml.evaluate(rt, rf, et, ef)),
+                     ("melody.evaluate[est_voicing]", lambda: ml.evaluate(rt, rf, et, ef, est_voicing=ev_arr.copy())),
+                     ("melody.evaluate[ref_reward]", lambda: ml.evaluate(rt, rf, et, ef, ref_reward=rr_arr.copy())),
+                     ("melody.evaluate[est_voicing,ref_reward]", lambda: ml.evaluate(rt, rf, et, ef, est_voicing=ev_arr.copy(), ref_reward=rr_arr.copy()))]
 
     def via_cent(name):
         def thunk():
